@@ -7,7 +7,7 @@ EXPECT = {"fix_stale_ptr": ("R-STALE", "stale:up"), "fix_clobber_order": ("R-CLO
           "fix_extent_carry": ("R-EXTENT", "overrun:w"), "fix_alias_good": None, "fix_alias_guarded": None}
 
 
-def run(prop="C05", tier="quick", rules=("R-STALE", "R-CLOBBER")):
+def run(prop="C05", tier="quick", rules=("R-STALE", "R-CLOBBER", "R-OVERLAP")):
     r = aliasflow.run_rules(prop, rules=rules, extra_files=[FIXTURE])
     fx = [f for f in r["findings"] if f.file == FIXTURE]
     r["findings"] = [f for f in r["findings"] if f.file != FIXTURE]
@@ -23,9 +23,12 @@ def run(prop="C05", tier="quick", rules=("R-STALE", "R-CLOBBER")):
     if st.get("functions", 0) < 180:
         raise AnalysisBroken("aliasflow analysed only %d functions (floor 180)" % st.get("functions", 0))
     r["obligations"] = st.get("limb_pointer_uses", 0) + st.get("input_reads", 0)
+    if "R-OVERLAP" in rules:
+        r["obligations"] += st.get("overlap_obligations", 0)
+        r["undecided"] = r.get("undecided", 0) + st.get("overlap_undecided", 0)
     if "R-EXTENT" in rules:
         r["obligations"] += st.get("extent_obligations", 0)
-        r["undecided"] = st.get("extent_undecided", 0)
+        r["undecided"] = r.get("undecided", 0) + st.get("extent_undecided", 0)
     r["notes"].append("fixtures: 2 positive fired, 2 negative silent; %d reviewed exception sites (spec/alias_exceptions.tsv)" % 5)
     r["samples"].append(dict(rule="aliasflow", functions=st.get("functions"), realloc_events=st.get("realloc_events"),
                              limb_pointer_uses=st.get("limb_pointer_uses"), input_reads=st.get("input_reads"),
